@@ -79,6 +79,27 @@ def _summarise(traces, verd, keep):
     return out
 
 
+def _by_class(res, bad):
+    """Keep, per distinct (clause, class), the number of failing traces and the first one as the example: results stay small
+    however many traces fail, and no class can hide behind another."""
+    by = res.setdefault('byclass', {})
+    for info, entries in bad:
+        seen = set()
+        for step, clause, klass in entries:
+            if (clause, klass) in seen:
+                continue
+            seen.add((clause, klass))
+            slot = by.get((clause, klass))
+            if slot is None:
+                ex = {k: v for k, v in info.items() if k != 'steps'}
+                ex['failing_step'] = step
+                if 'steps' in info:
+                    ex['recorded'] = info['steps'][step - 1]
+                by[(clause, klass)] = [1, ex]
+            else:
+                slot[0] += 1
+
+
 def _g_shard(args):
     """Worker: parse a byte range of the TLC state dump, render / record / validate its well-formed programs."""
     path, lo, hi, seed, shard, limit, deadline = args
@@ -110,7 +131,7 @@ def _g_shard(args):
         res['evals'] += part['evals']
         for c, n in part['clauses'].items():
             res['clauses'][c] = res['clauses'].get(c, 0) + n
-        res['bad'] += part['bad'][:400]  # enough to report; the counters above stay exact
+        _by_class(res, part['bad'])
         res['tlc'].append(st)
 
     traces = []
@@ -173,8 +194,10 @@ def _v_shard(args):
                 part.setdefault('detail', {})[(t['id'], step)] = (
                     {k: e[k] for k in ('kind', 'line', 'rows', 'pf', 'compn') if k in e} if e['u'] == 'tab' else {})
         res.update(n=part['n'], evals=part['evals'], clauses=part['clauses'], tlc=[st])
+        full = []
         for (info, bad), t in zip(part['bad'], [t for t in traces if verd[t['id']]['bad']]):
-            res['bad'].append((dict(info, facts={f'{s}': part['detail'].get((t['id'], s), {}) for s, _, _ in bad}), bad))
+            full.append((dict(info, facts={f'{s}': part['detail'].get((t['id'], s), {}) for s, _, _ in bad}), bad))
+        _by_class(res, full)
         res['samples'] = [{'program': traces[0]['name'], 'nodes': len(traces[0]['steps'][0]['nodes']),
                            'scopes': len(traces[0]['steps']) - 1}]
     tlc.cleanup()
@@ -199,23 +222,21 @@ def _absorb(ctx, res, kind):
 def _report(ctx, res):
     """Turn failed clauses into violations; Spec.* failures mean the specification disagrees with CPython."""
     spec_bad = []
-    for info, bad in res['bad']:
-        seen = set()
-        for step, clause, klass in bad:
-            if clause.startswith('Spec.') or clause in ('UnknownEvent', 'Walk.scopeNode'):
-                spec_bad.append((clause, klass, info.get('source', info.get('name'))))
-                continue
-            if (clause, klass) in seen:
-                continue
-            seen.add((clause, klass))
-            rp = {k: v for k, v in info.items() if k != 'steps'}
-            rp['failing_step'] = step
-            if 'steps' in info:
-                rp['recorded'] = info['steps'][step - 1]
-            ctx.violation(clause, klass, rp, detail=info.get('source', info.get('name', '')))
+    for (clause, klass), (count, ex) in sorted(res.get('byclass', {}).items()):
+        what = ex.get('source', ex.get('name', ''))
+        if clause.startswith('Spec.') or clause in ('UnknownEvent', 'Walk.scopeNode'):
+            spec_bad.append((clause, klass, what))
+            continue
+        f = ctx.known(clause, klass, what)
+        if f is not None:
+            ctx.known_hits.setdefault(f['id'], [f, 0])[1] += count
+            continue
+        ctx.violation(clause, klass, ex, detail=what)
+        vc = ctx.extra.setdefault('violating_traces_by_class', {})
+        vc[f'{clause} {klass}'] = vc.get(f'{clause} {klass}', 0) + count
     if spec_bad:
         c, k, s = spec_bad[0]
-        raise common.Machinery(f'the specification disagrees with CPython on {len(spec_bad)} case(s): {c} {k}\n{s}')
+        raise common.Machinery(f'the specification disagrees with CPython on {len(spec_bad)} class(es): {c} {k}\n{s}')
 
 
 def corpus_items(ctx):
@@ -261,8 +282,13 @@ def run(ctx):
                         'as named deviations; GlobalAtModule and AmbiguousInline are excluded from judgement']
     cfg = 'ScopeMC' if ctx.quick else 'ScopeMC_thorough'
     dump = os.path.join(tlc.scratch(), 'scope')
-    r = ctx.model('ScopeMC', cfg, required=('DoAddName', 'DoAddExprScope', 'DoAddDef'), extra=['-dump', dump],
-                  heap='2g' if ctx.quick else '6g', timeout=3000)
+    if ctx.quick:
+        r = ctx.model('ScopeMC', cfg, required=('DoAddName', 'DoAddExprScope', 'DoAddDef'), extra=['-dump', dump],
+                      heap='2g', timeout=3000)
+    else:
+        # action coverage (vacuity guard) on the small constants; the big run without -coverage, which triples its cost
+        ctx.model('ScopeMC', 'ScopeMC', required=('DoAddName', 'DoAddExprScope', 'DoAddDef'), heap='2g', timeout=3000)
+        r = ctx.model('ScopeMC', cfg, extra=['-dump', dump], heap='6g', timeout=3000, coverage=False)
     path = dump + '.dump'
     if not os.path.exists(path):
         raise common.Machinery('TLC wrote no state dump')
@@ -331,7 +357,9 @@ def replay(ctx, path):
         verd = ctx.validate({'traces': [{'id': 1, 'mode': 'corpus', 'steps': steps}]}, module='ScopeTrace')
         info = {'mode': 'corpus', 'name': name}
     print('verdict', sorted(verd[1]['bad']))
-    _report(ctx, {'bad': [(info, sorted(verd[1]['bad']))] if verd[1]['bad'] else []})
+    res = {}
+    _by_class(res, [(info, sorted(verd[1]['bad']))] if verd[1]['bad'] else [])
+    _report(ctx, res)
     return ctx.finish()
 
 
